@@ -185,6 +185,17 @@ class Engine:
                 body_set.add(x)
                 stack.extend(preds.get(x, []))
             loops.setdefault(h, set()).update(body_set)
+        # locals whose address is taken mutably (directly, not through a pointer) in a block: a loop that takes `&mut x`
+        # in its body and writes through pointers or calls anything may change x without ever assigning to it
+        def mut_borrowed_in(bs):
+            out = set()
+            for b in bs:
+                for st in blocks[b]['s']:
+                    if st[0] == '=' and st[2][0] in ('ref', 'rawptr') and (st[2][1] is True or st[2][1] == 'Mut'):
+                        pl = st[2][2]
+                        if '*' not in [p for p in pl[1] if isinstance(p, str)]:
+                            out.add(pl[0])
+            return out
         info = {}
         for h, bs in loops.items():
             assigned = set()
@@ -203,6 +214,8 @@ class Engine:
                 if t['k'] == 'call':
                     heapy = True
                     assigned.add(t['dest'][0])
+            if heapy:
+                assigned |= mut_borrowed_in(bs)
             info[h] = {'blocks': bs, 'assigned': assigned, 'heapy': heapy}
         self._loops[key] = info
         return info
